@@ -53,7 +53,8 @@ def announce_watchdog(
     self: 'API', reactor: 'Reactor', service: str, peers: list[str], command: str, use_json: bool, action: str = ''
 ) -> bool:
     async def callback(name: str) -> None:
-        for neighbor_name in reactor.configuration.neighbors.keys():
+        # only the neighbors the command selected
+        for neighbor_name in peers:
             neighbor = reactor.configuration.neighbors.get(neighbor_name, None)
             if not neighbor:
                 continue
@@ -71,7 +72,8 @@ def withdraw_watchdog(
     self: 'API', reactor: 'Reactor', service: str, peers: list[str], command: str, use_json: bool, action: str = ''
 ) -> bool:
     async def callback(name: str) -> None:
-        for neighbor_name in reactor.configuration.neighbors.keys():
+        # only the neighbors the command selected
+        for neighbor_name in peers:
             neighbor = reactor.configuration.neighbors.get(neighbor_name, None)
             if not neighbor:
                 continue
